@@ -86,7 +86,9 @@ def run(tier):
             if not nm.startswith(("D-", "L-")):
                 qs += ["D-" + nm, "L-" + nm]
                 prefixed.update({"D-" + nm: nm, "L-" + nm: nm})
-        items.append({"iupac": T.render(t), "queries": sorted(set(qs)), "self": True, "subchains": subchains(t)})
+        # a third of the glycans with the reducing-end anomer given by option: the tree stays what was written
+        kw = {"root_orientation": r.choice("ab")} if len(items) % 3 == 1 else {}
+        items.append({"iupac": T.render(t), "queries": sorted(set(qs)), "self": True, "subchains": subchains(t), "kw": kw})
     outs = C.run_impl_parallel("queries", items, extra={"tmp": os.path.join(C.BUILD, "tmp_c16")})
     # stand-alone molecules of the prefixed queries and of the residues they are derived from
     alone_names = sorted(set(prefixed) | set(prefixed.values()))
